@@ -167,7 +167,7 @@ def gen_case(rng, stream='s2c'):
                 rep=rng.random() < 0.3, t0=rng.choice([0.0, 0.0, 1.5e9, -1000.0, 123456.75]),
                 unit=rng.choice([1.0, 0.5, 0.25, 2.0, 8.0]),
                 pyargs=rng.choice(['array', 'array', 'list', 'scalar']),
-                gcont=rng.choice(['tuple', 'list', 'set']))
+                gcont=rng.choice(['tuple', 'list', 'set']), gform=rng.choice(['same', 'same', 'tuple', 'list']))
     if stream == 'cache':
         # SensorCache sorts and de-duplicates timestamps itself: stay strictly increasing and non-empty
         seen, ts2, v2 = set(), [], []
@@ -248,6 +248,9 @@ def py_inputs(case):
     greedy = None
     if case['greedy'] or case['gcont'] != 'tuple':
         g = [objs[c] for c in case['greedy']]
+        if alpha in ('arr', 'arrd') and case.get('gform') in ('tuple', 'list'):
+            # greedy values of an array-valued sensor written as plain sequences (the same values)
+            g = [(tuple(o.tolist()) if case['gform'] == 'tuple' else o.tolist()) for o in g]
         if case['gcont'] == 'set' and alpha in ('str', 'int', 'bool', 'tuple', 'wstr'):
             greedy = set(g)
         elif case['gcont'] == 'list':
